@@ -244,6 +244,11 @@ func (rt *Transfer) recvGenerator(idx int, f *File) error {
 		if err := rt.createDevice(f, st); err != nil {
 			return err
 		}
+		// mknod(2)/mkfifo(2)/bind(2) apply the umask and know nothing
+		// about owner, group or times.
+		if err := rt.setPerms(f, fs.FileMode(f.Mode)); err != nil {
+			return err
+		}
 		return nil
 	}
 
